@@ -18,6 +18,7 @@ type Prop struct {
 	LevelText   string
 	LevelNote   string
 	DesignRef   string
+	Patches     []sym.SourcePatch
 }
 
 // notApplicable lists properties that are not claimed, with the reason.
@@ -378,6 +379,9 @@ func propC13() *Prop {
 				}
 			}
 			js = append(js, threadJob(lbJob("C13b/two-interleaved-requests[gauge and mirror at quiescence]", "VerifC13Interleaved"), int(tierPick(tier, 2, 3))))
+			j3 := lbJob("C13a/accounting[round_robin,breaker,k=3,healthy,success_threshold 1..2: reaches the half-open 429]", "VerifC13Accounting", 0, 1, 3, 0)
+			j3.MaxPaths = 400000
+			js = append(js, j3)
 			return js
 		},
 		Assumptions: append([]string{"(*httputil.ReverseProxy).ServeHTTP is replaced by a model over a scripted backend: forward status 200..599 + body | default error handler 502 | abort after the headers with panic(http.ErrAbortHandler); natively the REAL ReverseProxy runs over a scripted RoundTripper", "the client connection is a recording ResponseWriter implementing net/http's documented contract; the harness recovers handler panics like net/http's server", "two backends in arbitrary health state (flag, window end zero or within 2^40ns of now)"}, commonAssumptions...),
@@ -397,6 +401,7 @@ func propC01() *Prop {
 			js = append(js, lbJob(fmt.Sprintf("C01a/writer-transparency[k=%d]", tierPick(tier, 3, 4)), "VerifC01Writer", tierPick(tier, 3, 4)))
 			js = append(js, lbJob("C01c/no-rewriting-hooks", "VerifC03Timeouts"))
 			js = append(js, job("C01b/middleware-transparency", "logging", "VerifC01Middleware"))
+			js = append(js, mainJob("C01d/full-handler-stack[plugins -> middleware -> balancer -> scripted backend]", "VerifStack", 0, tierPick(tier, 2, 3)))
 			return js
 		},
 		Assumptions: append([]string{"claimed for the Helios-owned layers between net/http and httputil.ReverseProxy only: the status-capturing responseWriter, RequestContextMiddleware, and the per-backend proxy construction; hop-by-hop handling, framing, HTTP/2 and the Transport are the Go standard library and are trusted", "the client connection is a recording ResponseWriter implementing net/http's documented contract (first final WriteHeader wins and freezes the header snapshot, Write/Flush imply 200, 1xx are interim)", "flush requests are issued through the real http.NewResponseController(...).Flush() as ReverseProxy does"}, commonAssumptions...),
@@ -423,6 +428,7 @@ func propC03() *Prop {
 				}
 			}
 			js = append(js, lbJob("C03/timeouts-never-disabled", "VerifC03Timeouts"))
+			js = append(js, mainJob("C03/full-handler-stack[breaker+limiter+passive]", "VerifStack", 7, 2))
 			return js
 		},
 		Assumptions: append([]string{"fault alphabet at the handler interface: backend answers any status 200..599 (5xx storm), connection refused (default error handler -> 502), response aborted mid-body (panic(http.ErrAbortHandler)); ReverseProxy.ServeHTTP replaced by the scripted model, natively the real ReverseProxy over a scripted RoundTripper", "network-level behaviour (hangs, slow bodies, resets, the latency bound itself) happens inside net/http's Transport and is trusted to the strictly positive timeouts established by C03/timeouts-never-disabled", "timeout settings up to 2^31 seconds"}, commonAssumptions...),
@@ -441,6 +447,7 @@ func propC16() *Prop {
 			return []*sym.Job{
 				job("C16a/propagation", "logging", "VerifC16Propagation"),
 				job("C16b/identifier-injectivity", "logging", "VerifC16Unique"),
+				mainJob("C16c/every-response-path[full handler stack: proxied, 401, 413, 429, 502, 503]", "VerifStack", 3, 2),
 				neg(job("C16b/negative-twin", "logging", "VerifC16NegUnique")),
 			}
 		},
@@ -489,14 +496,18 @@ func propC15() *Prop {
 				js = append(js, job(fmt.Sprintf("C15/wire-view[writes=1,level=%d]", lvl), "plugins", "VerifC15Wire", 1, lvl))
 			}
 			js = append(js, neg(job("C15/negative-twin", "plugins", "VerifC15Neg")))
+			for w := int64(1); w <= tierPick(tier, 3, 4); w++ {
+				js = append(js, job(fmt.Sprintf("C15/buffer-cap-and-reuse[2 requests, <=%d writes of 0..5 bytes, cap scaled to 8 bytes]", w), "plugins", "VerifC15Cap", w))
+			}
 			return js
 		},
+		Patches: []sym.SourcePatch{{File: "internal/plugins/compression.go", Old: "MaxCompressionBufferSize = 10 * 1024 * 1024", New: "MaxCompressionBufferSize = 8", Why: "the 10 MiB buffering cap is scaled to 8 bytes so that the streaming-fallback logic is reachable with small symbolic bodies; the logic compares sizes with the constant and does not otherwise depend on its value"}},
 		Assumptions: append([]string{"compress/gzip is an abstract encoder: NewWriterLevel fails iff level is outside [-2,9]; Close emits exactly one opaque token carrying the buffered content (DEFLATE itself is not encoded); natively the real gzip runs and the harness decodes with gzip.NewReader", "the client sees the header snapshot frozen at the first WriteHeader (net/http's documented contract), the body bytes, and the status", "bytes.Buffer runs from its real SSA body"}, commonAssumptions...),
 		Bounds: map[string]string{
 			"quick":    "9 Accept-Encoding spellings x 4 content types x already-encoded or not x declared Content-Length or not x explicit/implicit WriteHeader (status 200..599) x compression levels -1..9 x min_size 0..4 x bodies written in <= 2 writes of 0..2 bytes",
 			"thorough": "<= 3 writes",
 		},
-		Outside: []string{"bodies around the 10MB buffering cap (streaming fallback)", "DEFLATE correctness", "q-values"},
+		Outside: []string{"the absolute value of the 10 MiB cap (the fallback logic is checked with the cap scaled to 8 bytes)", "DEFLATE correctness", "q-values"},
 	}
 }
 
@@ -516,6 +527,7 @@ func propC17() *Prop {
 				js = append(js, job(fmt.Sprintf("C17b/fail-closed[k=%d]", k), "plugins", "VerifC17FailClosed", k))
 			}
 			js = append(js, mainJob("C17b/buildHandler-propagates-the-error", "VerifC18Starts", 0))
+			js = append(js, mainJob("C17a/rejection-through-the-real-handler-stack", "VerifStack", 0, 2))
 			js = append(js, neg(job("C17/negative-twin", "plugins", "VerifC17Neg")))
 			for _, j := range js {
 				j.MaxPaths = 1000000
@@ -628,6 +640,9 @@ func propC20() *Prop {
 				js = append(js, j)
 			}
 			js = append(js, lbJob("C20b/hijack[balancer writer]", "VerifC20Hijack"))
+			for i, n := range []string{"cleanup || Put", "Get || Get", "Put || Shutdown"} {
+				js = append(js, threadJob(lbJob("C20c/concurrent["+n+"]", "VerifC20Concurrent", int64(i)), int(tierPick(tier, 2, 3))))
+			}
 			for k := int64(1); k <= 3; k++ {
 				js = append(js, job(fmt.Sprintf("C20b/hijack[plugin wrappers, depth %d]", k), "plugins", "VerifC20PluginHijack", k))
 			}
@@ -655,6 +670,7 @@ var pairNames = []string{
 	"GetMetrics || RecordBackendRequest+UpdateBackendHealth+UpdateBackendConnections", "Allow || Allow (existing bucket)", "Allow || Allow (first requests)", "Allow || cleanup",
 	"Execute || Execute (LB callback installed)", "Execute || State+Counts", "pool Get || Put", "pool Put || cleanup", "pool Get || Shutdown", "AddBackend || NextBackend+ListBackends",
 	"RemoveBackend || NextBackend+ListBackends", "SetStrategy || NextBackend+ListBackends", "IsBackendHealthy(expiry) || MarkBackendUnhealthy", "ServeHTTP || ServeHTTP", "RecordRequest/Response || GetMetrics",
+	"ListBackends || MarkBackendUnhealthy (after an expired window)",
 }
 
 func propC12() *Prop {
@@ -664,6 +680,9 @@ func propC12() *Prop {
 			var js []*sym.Job
 			for i, n := range pairNames {
 				js = append(js, threadJob(lbJob(fmt.Sprintf("C12/pair[%s]", n), "VerifC12Pair", int64(i)), int(tierPick(tier, 2, 3))))
+			}
+			for i, n := range []string{"pool cleanup || Put", "pool Get || Get", "pool Put || Shutdown"} {
+				js = append(js, threadJob(lbJob("C12/pair["+n+" (real constructor)]", "VerifC20Concurrent", int64(i)), int(tierPick(tier, 2, 3))))
 			}
 			js = append(js, threadJob(lbJob("C12/pair[health-check tick || Stop]", "VerifC19Stop", 0, 1), int(tierPick(tier, 2, 3))))
 			js = append(js, threadJob(lbJob("C12/pair[Stop || Stop]", "VerifC19Stop", 1, 1), int(tierPick(tier, 2, 3))))
